@@ -95,18 +95,41 @@ type c05family struct {
 	pattern string
 	unit    string // haystack = unit repeated to length n (+ tail)
 	tail    string
+	head    string // fixed prefix of the haystack
+	headRun string // unit of a prefix that grows with n: repeated to length n/16 (keeps every single scan under a fixed budget)
+}
+
+// key names the input family in reports (the repeated unit, with the prefix when there is one).
+func (f c05family) key() string {
+	if f.head == "" && f.headRun == "" {
+		return f.unit
+	}
+	return fmt.Sprintf("%s(%s)^(n/16)|%s", f.head, f.headRun, f.unit)
+}
+
+func (f c05family) haystack(n int) []byte {
+	h := []byte(f.head)
+	if f.headRun != "" {
+		h = append(h, strings.Repeat(f.headRun, n/16/len(f.headRun)+1)[:n/16]...)
+	}
+	h = append(h, strings.Repeat(f.unit, n/len(f.unit)+1)[:n]...)
+	return append(h, f.tail...)
 }
 
 var c05Families = []c05family{
-	{`([a-z])+[0-9]`, "a", ""}, {`(a|b)*c`, "ab", ""}, {`(x+x+)+y`, "x", ""}, {`(a*)*b`, "a", ""}, {`a{1,30}b`, "a", ""},
-	{`foo.*?bar`, "foo", ""}, {`.*error.*`, "erro", ""}, {`.*error.*`, "error\n", ""}, {`\w+@\w+\.com`, "a@", ""}, {`.*\.txt$`, ".txt", "x"},
-	{`\d+\.\d+\.\d+`, "1.", ""}, {`[^,]+,`, "a", ""}, {`(?i)hello`, "hell", ""}, {`error|warning|fatal`, "erro", ""}, {`\bfoo\b`, "foo_", ""},
-	{`[a-z]+[a-z]+[0-9]`, "a", ""}, {`[a-z]+[0-9]+`, "a", ""}, {`^(\w+)\s(\w+)$`, "a", ""}, {`(\w+)@(\w+)\.(\w+)`, "a@", ""}, {`[a-z]+connection[a-z]+`, "connectio", ""},
-	{`(?m)^/.*\.php`, "/.ph", ""}, {`.*\.(txt|log|md)`, ".tx", ""}, {`\d{1,3}\.\d{1,3}\.\d{1,3}\.\d{1,3}`, "1.2.", ""}, {`(foo|bar|baz)qux`, "fooqu", ""}, {`x*`, "y", ""},
-	{`(?s)a.+b`, "a", ""}, {`"[^"]*"`, "\"a", ""}, {`<.*?>`, "<a", ""}, {`(\d+)-(\d+)-(\d+)`, "1-", ""}, {`^.*foo.*bar$`, "fooba", ""},
+	{pattern: `([a-z])+[0-9]`, unit: "a", tail: ""}, {pattern: `(a|b)*c`, unit: "ab", tail: ""}, {pattern: `(x+x+)+y`, unit: "x", tail: ""}, {pattern: `(a*)*b`, unit: "a", tail: ""}, {pattern: `a{1,30}b`, unit: "a", tail: ""},
+	{pattern: `foo.*?bar`, unit: "foo", tail: ""}, {pattern: `.*error.*`, unit: "erro", tail: ""}, {pattern: `.*error.*`, unit: "error\n", tail: ""}, {pattern: `\w+@\w+\.com`, unit: "a@", tail: ""}, {pattern: `.*\.txt$`, unit: ".txt", tail: "x"},
+	{pattern: `\d+\.\d+\.\d+`, unit: "1.", tail: ""}, {pattern: `[^,]+,`, unit: "a", tail: ""}, {pattern: `(?i)hello`, unit: "hell", tail: ""}, {pattern: `error|warning|fatal`, unit: "erro", tail: ""}, {pattern: `\bfoo\b`, unit: "foo_", tail: ""},
+	{pattern: `[a-z]+[a-z]+[0-9]`, unit: "a", tail: ""}, {pattern: `[a-z]+[0-9]+`, unit: "a", tail: ""}, {pattern: `^(\w+)\s(\w+)$`, unit: "a", tail: ""}, {pattern: `(\w+)@(\w+)\.(\w+)`, unit: "a@", tail: ""}, {pattern: `[a-z]+connection[a-z]+`, unit: "connectio", tail: ""},
+	{pattern: `(?m)^/.*\.php`, unit: "/.ph", tail: ""}, {pattern: `.*\.(txt|log|md)`, unit: ".tx", tail: ""}, {pattern: `\d{1,3}\.\d{1,3}\.\d{1,3}\.\d{1,3}`, unit: "1.2.", tail: ""}, {pattern: `(foo|bar|baz)qux`, unit: "fooqu", tail: ""}, {pattern: `x*`, unit: "y", tail: ""},
+	{pattern: `(?s)a.+b`, unit: "a", tail: ""}, {pattern: `"[^"]*"`, unit: "\"a", tail: ""}, {pattern: `<.*?>`, unit: "<a", tail: ""}, {pattern: `(\d+)-(\d+)-(\d+)`, unit: "1-", tail: ""}, {pattern: `^.*foo.*bar$`, unit: "fooba", tail: ""},
 	// every suffix / inner / digit candidate is a near miss whose verification scans back (or forward) over the whole run
-	{`[0-9][a-z.]+\.txt`, ".txt", ""}, {`[0-9][a-z.]+\.(txt|log|dat)`, ".txt", ""}, {`[0-9][a-z0-9]*X`, "1", ""}, {`\bab[a-z]*X`, "ab ", ""},
-	{`[a-z.]+connect[a-z.]+X`, "connect", ""}, {`[0-9]+[a-z]*\.com`, "1a.co", ""}, {`(?i)[0-9][a-z]*error`, "erro", ""},
+	{pattern: `[0-9][a-z.]+\.txt`, unit: ".txt", tail: ""}, {pattern: `[0-9][a-z.]+\.(txt|log|dat)`, unit: ".txt", tail: ""}, {pattern: `[0-9][a-z0-9]*X`, unit: "1", tail: ""}, {pattern: `\bab[a-z]*X`, unit: "ab ", tail: ""},
+	{pattern: `[a-z.]+connect[a-z.]+X`, unit: "connect", tail: ""}, {pattern: `[0-9]+[a-z]*\.com`, unit: "1a.co", tail: ""}, {pattern: `(?i)[0-9][a-z]*error`, unit: "erro", tail: ""},
+	// ONE long line dense in suffix candidates (the multiline strategy must not re-verify the line per candidate); digit runs behind
+	// a prefix that keeps each single scan cheap (a per-scan budget instead of an accumulated one lets all of them through)
+	{pattern: `(?m)^/.*[0-9]\.php`, unit: "a.php", head: "/"}, {pattern: `(?m)^GET .*[\w-]+\.html$`, unit: "x.html ", head: "GET "},
+	{pattern: `[0-9][a-z0-9]*X`, unit: "7", headRun: "a"}, {pattern: `[0-9][a-z0-9]*X|7Y`, unit: "7", headRun: "k"}, {pattern: `\d[\da-z]*_id`, unit: "9", headRun: "z"},
 }
 
 func c05Worker(maxN, from int) int {
@@ -168,7 +191,7 @@ func c05Worker(maxN, from int) int {
 		strat := strategyOf(fam.pattern)
 		for _, api := range []string{"Match", "FindIndex", "FindSubmatchIndex"} {
 			for n := 512; n <= maxN; n *= 2 {
-				h := []byte(strings.Repeat(fam.unit, n/len(fam.unit)+1)[:n] + fam.tail)
+				h := fam.haystack(n)
 				done := make(chan uint64, 1)
 				go func() {
 					call := func() {
@@ -195,9 +218,9 @@ func c05Worker(maxN, from int) int {
 				}()
 				select {
 				case work := <-done:
-					fmt.Fprintf(w, "WORK\t%s\t%s\t%s\t%s\t%d\t%d\t%d\n", fam.pattern, strconv.Quote(fam.unit), strat, api, states, n, work)
+					fmt.Fprintf(w, "WORK\t%s\t%s\t%s\t%s\t%d\t%d\t%d\n", fam.pattern, strconv.Quote(fam.key()), strat, api, states, n, work)
 				case <-time.After(20 * time.Second):
-					fmt.Fprintf(w, "TIMEOUT\t%s\t%s\t%s\t%s\t%d\t%d\t%d\n", fam.pattern, strconv.Quote(fam.unit), strat, api, states, n, fi)
+					fmt.Fprintf(w, "TIMEOUT\t%s\t%s\t%s\t%s\t%d\t%d\t%d\n", fam.pattern, strconv.Quote(fam.key()), strat, api, states, n, fi)
 					w.Flush()
 					os.Exit(0) // the stuck search keeps burning CPU: stop this worker; the parent reports what was measured
 				}
